@@ -48,6 +48,12 @@ def standins(tier, seed):
     cfgs.append(dict(p=4, random=2, study_outer=True, ops=['outertan', 'outerexp', 'outersin', 'outercos'],
                      variants=[dict(cse=True, graded=False), dict(cse=True, graded=False, symbolcls='sympy'), dict(cse=False, graded=False),
                                dict(cse=True, graded=False, wrapper='identity')]))
+    # non-blade elements in 6-D: the general (Shirokov) inverse is the only code generator that re-uses intermediate sums, so it is where
+    # the built-in polynomial class and sympy symbols can part ways (seeded change C13j)
+    cfgs.append(dict(p=6, random=2, keys_pairs=[((0, 63), (1, 6)), ((1, 6), (0, 63))] if tier == 'quick' else [((0, 63), (1, 6)), ((1, 6), (0, 3, 12)), ((0, 3, 12), (0, 63))],
+                     ops=['inv', 'div', 'normsq'],
+                     variants=[dict(cse=True, graded=False), dict(cse=True, graded=False, symbolcls='sympy'), dict(cse=False, graded=False),
+                               dict(cse=True, graded=False, wrapper='identity')]))
     names = [{'name': 'typeid', 'bound': 'generated function names pairwise distinct across all operators and all ordered key tuples (d<=2 exhaustive, d=3 up to length 3): with a wrapper set functions are called by name',
               'job': {'kind': 'typeid', 'module': 'standins.jobs2', 'configs': [dict(p=1), dict(p=2), dict(p=2, q=0, r=1, maxlen=2)]}}]
     return names + [{'name': f'options#{i}', 'bound': 'grade-block operand pairs per signature x the product (sampled in quick) of cse x graded x symbol class x wrapper; Fraction values; every operator compared with the default-options algebra',
